@@ -3,6 +3,7 @@
 package zzverif
 
 import (
+	"sync/atomic"
 	"testing/synctest"
 	"time"
 )
@@ -43,8 +44,18 @@ func SleepUntil(t int64) {
 // Settle lets every goroutine of the bubble run until it blocks.
 func Settle() {
 	if inBubble {
+		// synctest allows one Wait at a time: a second goroutine (a callback that "takes its
+		// time" while the harness goroutine settles) sleeps for a virtual millisecond instead,
+		// which also returns only once every other goroutine of the bubble is blocked
+		if !settling.CompareAndSwap(false, true) {
+			time.Sleep(time.Millisecond)
+			return
+		}
 		synctest.Wait()
+		settling.Store(false)
 		return
 	}
 	Quiesce()
 }
+
+var settling atomic.Bool
